@@ -35,8 +35,11 @@ def compile_record(files, main):
     try:
         ir, _dbg, errors = embc.parse(files, main)
     except Exception as e:
+        # An uncaught exception is C16's finding; its message is not a
+        # diagnostic the compiler composes (assertion texts print Python sets),
+        # so only the exception type and the raising function are compared.
         rec["status"] = "crash:%s" % type(e).__name__
-        rec["diag"] = repr(e)
+        rec["diag"] = "%s@%s" % embc.crash_site(e)
         return rec
     srcs = {k: v for k, v in files.items() if v is not None}
     if errors:
@@ -53,8 +56,11 @@ def compile_record(files, main):
         rec["ir"] = ir_data_utils.IrDataSerializer(ir).to_json()
         hdr, herrors = embc.header(ir)
     except Exception as e:
+        # An uncaught exception is C16's finding; its message is not a
+        # diagnostic the compiler composes (assertion texts print Python sets),
+        # so only the exception type and the raising function are compared.
         rec["status"] = "crash:%s" % type(e).__name__
-        rec["diag"] = repr(e)
+        rec["diag"] = "%s@%s" % embc.crash_site(e)
         return rec
     if herrors:
         rec["status"] = "backend-rejected"
@@ -104,6 +110,12 @@ def source_set(seed, n):
         ("anon-bits", {"m.emb": "struct Foo:\n  0 [+1]  bits:\n    0 [+4]  UInt  a\n    4 [+4]  UInt  b\n  1 [+1]  bits:\n    0 [+1]  Flag  c\n"
                                 "  2 [+1]  bits:\n    0 [+8]  UInt  d\nstruct Bar:\n  0 [+2]  bits:\n    0 [+9]  UInt  e\n"}),
     ]
+    # a name visible from two scopes: the two "Possible resolution" notes come from a list the compiler sorts
+    for j, nm in enumerate(["Bar", "Quux", "Xyzzy", "Aa", "Zz9", "Thing", "Inner", "LongerTypeName"]):
+        fixed.append(("ambiguous-scopes-%d" % j, {"m.emb": "struct %s:\n  0 [+1]  UInt  x\nstruct Foo%d:\n  struct %s:\n    0 [+2]  UInt  y\n"
+                                                            "  0 [+2]  %s  b\n" % (nm, j, nm, nm)}))
+    for j, nm in enumerate(["UInt", "Int", "Flag", "Bcd"]):
+        fixed.append(("ambiguous-prelude-%d" % j, {"m.emb": "struct %s:\n  0 [+1]  bits:\n    0 [+1]  Flag  f\nstruct Foo:\n  0 [+1]  %s  x\n" % (nm, nm)}))
     for name, files in fixed:
         out.append((name, files, "m.emb"))
     while len(out) < n:
